@@ -22,10 +22,8 @@ SOURCES = ['celt/entenc.c', 'celt/entdec.c', 'celt/entcode.c', 'celt/entcode.h',
 REQUIRED_THEOREMS = ['OpusProps.C08.rng_normalised', 'OpusProps.C08.tell_frac_bounds', 'OpusProps.C08.tell_frac_formula',
                      'OpusProps.C08.tell_monotone', 'OpusProps.C08.decode_encode', 'OpusProps.C08.lockstep_rng',
                      'OpusProps.C08.decode_encode_patched', 'OpusProps.C08.done_within_budget',
-                     'OpusProps.C08.outside_untouched']
-UNPROVED = ['lockstep_symbols (Stage A variant of lockstep_rng that assumes only "the decoder returned the encoded symbol" '
-            'instead of "ec_enc_done succeeded": proved in OpusProofs/RangeCoderLockstep.lean for every operation except '
-            'ec_dec_uint, whose case does not pass the kernel in reasonable time; lockstep_rng covers the property clause)']
+                     'OpusProps.C08.outside_untouched', 'OpusProps.C08.lockstep_symbols']
+UNPROVED = []
 RULE = ('op sequences of length 1..4000 over all nine operation kinds (ec_encode, ec_encode_bin, ec_enc_bit_logp, ec_enc_icdf, '
         'ec_enc_icdf16, ec_enc_uint, ec_enc_bits, ec_enc_patch_initial_bits, ec_enc_shrink) drawn from the seed by a '
         'profile-driven generator (all-kinds mix, mostly raw bits, mostly symbols, mostly uint, top-of-range symbols with '
@@ -67,8 +65,8 @@ LEVEL_NOTE = ('trusted: Lean kernel; the correspondence harness, the line protoc
               'nbits_total / nend_bits modelled as Nat (they never go negative on legal inputs), rem / error as Int')
 TECHNIQUE = 'Lean 4 theorems on an executable range-coder model + state-by-state differential correspondence + predicate search'
 
-QUICK_SEQ, THOROUGH_SEQ = 20000, 400000
-QUICK_SEARCH, THOROUGH_SEARCH = 60000, 1500000
+QUICK_SEQ, THOROUGH_SEQ = 20000, 300000
+QUICK_SEARCH, THOROUGH_SEARCH = 60000, 1000000
 PENDING_FF = 'carry-pending 0xFF'
 
 
